@@ -132,7 +132,7 @@ def _interp(ctx, desc):
     single = typed and (ddt == torch.float32 or tdt == torch.float32)
     # the arithmetic runs in the promoted type: single precision when either side is single precision
     RT, AT = (2e-5, 2e-4) if single else (1e-10, 1e-9)
-    fracs = [0.0, 1e-6, 0.1, 0.25, 0.5 - 1e-6, 0.5, 0.5 + 1e-6, 0.75, 0.9, 1 - 1e-6, 1.0]
+    fracs = [0.0, 1e-6, 0.1, 0.25, 0.5 - 1e-6, 0.5 - 1e-9, 0.5, 0.5 + 1e-9, 0.5 + 1e-7, 0.5 + 1e-6, 0.75, 0.9, 1 - 1e-6, 1.0]
     efn, ifn = getattr(inff, "extrap_" + ex), getattr(inff, "interp_" + ip)
     # the linear pairs document an optional adjustment f of the bracket they keep: X(0) = f(D(0)) (forward) or
     # X(dt) = f(D(dt)) (backward), the other slot on the line through it and the sample
